@@ -97,7 +97,7 @@ func genWSteps(src sim.Source) []wStep {
 		case k < 16:
 			out = append(out, wStep{Kind: "blob", Code: sim.Pick(src, "code", c14Codes[:5]), Data: data(), Preset: sim.Pick(src, "presetct", []int{0, 0, 0, 1, 2})})
 		case k < 17:
-			out = append(out, wStep{Kind: "stream", Code: sim.Pick(src, "code", c14Codes[:5]), Data: data(), Together: sim.Bool(src, "together"), Chunk: src.Intn("chunk", 4), Preset: sim.Pick(src, "presetct", []int{0, 0, 0, 1, 2})})
+			out = append(out, wStep{Kind: "stream", Code: sim.Pick(src, "code", []int{200, 201, 204, 404, 500, 304}), Data: data(), Together: sim.Bool(src, "together"), Chunk: src.Intn("chunk", 4), Preset: sim.Pick(src, "presetct", []int{0, 0, 0, 1, 2})})
 		case k < 18:
 			out = append(out, wStep{Kind: "redirect", Code: sim.Pick(src, "rcode", []int{299, 300, 301, 302, 303, 304, 305, 306, 307, 308, 309, 310, 399, 200, 3000}), URL: "http://sim.invalid/next"})
 		case k < 19 && i == n-1:
@@ -211,7 +211,15 @@ func runWHistory(w *world.World, steps []wStep, caps world.Caps, reqCT string, c
 					if ct := strings.Join(conn.H.Values("Content-Type"), " | "); fail == "" && firstFinal && before == 0 && ct != "application/x-sim" {
 						fail = fmt.Sprintf("%s on a fresh writer (preset content type: %v) sent Content-Type %q, it was given application/x-sim", name, st.Preset, ct)
 					}
-					_ = err
+					// ... and exactly the bytes of the reader, whatever the status (a helper is not the place to decide
+					// that a status has no body): everything the source delivered was offered to the connection
+					avail := st.Data
+					if srcFail >= 0 && srcFail < len(avail) {
+						avail = avail[:srcFail]
+					}
+					if got := len(conn.Body) - before; fail == "" && (got > len(avail) || string(conn.Body[before:]) != avail[:got] || (got < len(avail) && err == nil)) {
+						fail = fmt.Sprintf("%s (status %d): the source delivered %q, the connection received %q, error %v", name, st.Code, avail, conn.Body[before:], err)
+					}
 				}
 			case "flush":
 				err := wr.FlushError()
